@@ -378,10 +378,16 @@ class Contact(ComplexModel):             # every element member belongs to a cho
     phone = Unicode(xml_choice_group='how')
 
 
+class Card(ComplexModel):                # a choice group between ordinary members
+    __namespace__ = TNS
+    _type_info = [('owner', Unicode), ('email', Unicode(xml_choice_group='how')), ('phone', Unicode(xml_choice_group='how')),
+                  ('rank', Integer)]
+
+
 IN_TYPES = {'primitive': Integer, 'foreign': ZooRecord, 'local': LocalRecord, 'nested-foreign': FarmRecord,
-            'derived-across-namespaces': Keeper, 'choice-only': Contact}
+            'derived-across-namespaces': Keeper, 'choice-only': Contact, 'choice-between-members': Card}
 OUT_TYPES = {'primitive': Unicode, 'foreign': ZooRecord, 'local': LocalRecord, 'nested-foreign': FarmRecord,
-             'derived-across-namespaces': Keeper, 'choice-only': Contact}
+             'derived-across-namespaces': Keeper, 'choice-only': Contact, 'choice-between-members': Card}
 _COMPILED = {}
 
 
@@ -390,7 +396,7 @@ _COMPILED = {}
          functions=['spyne.interface._base.Interface.add_method', 'spyne.interface._base.Interface.add_class',
                     'spyne.interface.xml_schema._base.XmlSchema.build_schema_nodes',
                     'spyne.interface.xml_schema._base.XmlSchema.build_validation_schema'],
-         bounds={'universes': '3 body styles x 6 argument kinds x 6 return kinds over five namespaces (a type derived across two namespaces that refer to each other, a type whose members all sit in a choice group) (concrete programs; '
+         bounds={'universes': '3 body styles x 7 argument kinds x 7 return kinds over five namespaces (a type derived across two namespaces that refer to each other, a type whose members all sit in a choice group, a choice group declared between ordinary members) (concrete programs; '
                               'this harness is an enumeration of universes, there is no symbolic input)'})
 def schema_compiles(sx, p):
     """for every listed application the generated schema set compiles (every referenced namespace is imported) and both the
@@ -402,11 +408,11 @@ def schema_compiles(sx, p):
     out_value = {'primitive': u'txt', 'foreign': ZooRecord(name=u'z', legs=4), 'local': LocalRecord(n=3),
                  'nested-foreign': FarmRecord(rec=ZooRecord(name=u'z', legs=2), tag=u't'),
                  'derived-across-namespaces': Keeper(pet=PetRec(name=u'rex'), badge=7, shift=u'night'),
-                 'choice-only': Contact(phone=u'555')}[o]
+                 'choice-only': Contact(phone=u'555'), 'choice-between-members': Card(owner=u'o', phone=u'555', rank=2)}[o]
     in_value = {'primitive': 7, 'foreign': ZooRecord(name=u'q', legs=1), 'local': LocalRecord(n=1),
                 'nested-foreign': FarmRecord(rec=ZooRecord(name=u'q', legs=0), tag=u''),
                 'derived-across-namespaces': Keeper(pet=PetRec(name=u'tom'), badge=1, shift=u'day'),
-                'choice-only': Contact(email=u'a@b')}[i]
+                'choice-only': Contact(email=u'a@b'), 'choice-between-members': Card(owner=u'p', email=u'a@b', rank=1)}[i]
 
     class S(Service):
         @rpc(IN_TYPES[i], _returns=OUT_TYPES[o], **kw)
